@@ -5,7 +5,7 @@ from .e3common import run_e3, MOD, replay as _replay
 def main(ctx):
     ctx.level = 'other'
     cexs = run_e3(ctx, 'C08', 5 if ctx.quick else 7, ms_variants=((2, 2),) if ctx.quick else ((2, 2), (3, 2)),
-                  suffix_styles=(0,), fillings=(False, True), histories=False)
+                  suffix_styles=(0,), fillings=(False, True), histories=True)
     from . import c08v
     cexs_v = c08v.value_level(ctx)
     ctx.replay_all(cexs, MOD, 'replay')
